@@ -28,7 +28,7 @@ def histories(rng, tier):
         n = rng.randint(0, 3)
         acts = [("raw", n, rand_small_state(rng, n)), ("dump",)]
         if rng.random() < 0.4:
-            acts.insert(1, ("threads", rng.choice([2, 3, 4])))      # "... and threading models"
+            acts.insert(1, ("threads", rng.choice(regcheck.thread_counts())))      # "... and threading models"
         tot = n
         for _ in range(rng.randint(1, 3)):
             n2 = rng.randint(0, min(rng.choice([3, 3, 5]), 7 - tot))
